@@ -5,6 +5,7 @@ package main
 
 import (
 	"bytes"
+	"errors"
 	"fmt"
 	"net"
 
@@ -496,9 +497,83 @@ func twoConnections(cfg *mc.Config, emit func(mc.Scenario)) {
 	}})
 }
 
+// closeWithData: the peer writes and ends (eof / reset); its last bytes arrive
+// in the same Read as the end of the stream: every byte must still be
+// delivered before the end is reported.
+func closeWithData(cfg *mc.Config, emit func(mc.Scenario)) {
+	seed := cfg.Seed
+	for _, role := range []string{"client", "server"} {
+		for end := 0; end <= 1; end++ {
+			role, end := role, end
+			emit(mc.Scenario{Name: fmt.Sprintf("edge/%s/close-with-data/%s", role, []string{"eof", "reset"}[end]), Weight: 10, Run: func(c *mc.Ctx) {
+				rnd.Install(rnd.New(seed, "c14-real-edge"))
+				refRnd := rnd.New(seed, "c14-ref-edge")
+				cw, sw := wire.Pipe("client", "server")
+				realWire, refWire := cw, sw
+				if role == "server" {
+					realWire, refWire = sw, cw
+				}
+				inbound := o4h.Pattern('I', 0, 3000)
+				var got []byte
+				var realErr, refErr, rdErr error
+				res := sched.Run(c, sched.Options{NoPreempt: true, NoEarlyTimers: true, MaxSteps: 3_000_000}, func() {
+					s := sched.Cur()
+					s.Spawn("ref", func() {
+						rs, err := ref.Obfs2Handshake(refWire, ref.Obfs2Opts{Initiator: role == "server", Seed: refRnd.Bytes(16), PadLen: 9}, refRnd)
+						if err != nil {
+							refErr = err
+							refWire.Close()
+							return
+						}
+						rs.Send(inbound[:100])
+						rs.Send(inbound[100:])
+						if end == 0 {
+							refWire.CloseWrite()
+						} else {
+							refWire.Out.Err = errors.New("connection reset by peer")
+						}
+					})
+					conn, err := realConn(role, realWire)
+					if err != nil {
+						realErr = err
+						return
+					}
+					realWire.CoalesceEnd = true
+					b := make([]byte, 700)
+					for {
+						n, err := conn.Read(b)
+						got = append(got, b[:n]...)
+						if err != nil {
+							rdErr = err
+							break
+						}
+					}
+				})
+				if len(res.Panics) > 0 {
+					fail(c, "no-panic", "panic/edge", "%s", res.Panics[0])
+					return
+				}
+				if realErr != nil || refErr != nil {
+					fail(c, "handshake", "edge/handshake", "real=%v ref=%v", realErr, refErr)
+					return
+				}
+				c.Observe("out", fmt.Sprintf("got=%d err=%v", len(got), rdErr))
+				if !bytes.HasPrefix(inbound, got) {
+					fail(c, "stream", "edge/altered", "delivered bytes are not a prefix of what the peer wrote (first difference at %d)", firstDiff(inbound, got))
+				} else if len(got) != len(inbound) {
+					fail(c, "stream", "edge/close-with-data/lost", "the peer wrote %d bytes and ended, its last bytes arriving together with the end of the stream: the %s delivered only %d (then %v)", len(inbound), role, len(got), rdErr)
+				} else if rdErr == nil {
+					fail(c, "stream", "edge/close-with-data/no-end", "the stream ended but Read never reported it")
+				}
+			}})
+		}
+	}
+}
+
 func main() {
 	mc.Main("C14", func(cfg *mc.Config, emit func(mc.Scenario)) {
 		scenarios(cfg, emit)
 		twoConnections(cfg, emit)
+		closeWithData(cfg, emit)
 	})
 }
